@@ -754,9 +754,9 @@ theorem getFdata_miss_res (s : State) (c : Caching) (d : DT) (hc : c ≠ .other)
 
 theorem miss_proxy {s : State} {raw : List Int} {p : Par} (hi : s.img = .proxy raw p)
     (c : Caching) (d : DT) (hc : c ≠ .other) (hd : d ≠ .i2) (hm : fhit s d = none) :
-    (step s (.getFdata c d)).2.res = .arr s.heap.length ⟨d, p.scaled raw, false⟩ := by
+    (step s (.getFdata c d)).2.res = .arr s.heap.length ⟨d, p.scaled raw, p.readRO (some d)⟩ := by
   rw [getFdata_miss_res s c d hc hd hm]
-  have : readObj s (some d) = alloc s ⟨d, p.scaled raw, false⟩ := by
+  have : readObj s (some d) = alloc s ⟨d, p.scaled raw, p.readRO (some d)⟩ := by
     unfold readObj; rw [hi]; rfl
   rw [this, alloc_snd, get_alloc_new]
 
@@ -774,8 +774,8 @@ theorem miss_array {s : State} {own : Nat} (hi : s.img = .array own)
   · rw [alloc_snd, get_alloc_new]
 
 theorem asarray_proxy {s : State} {raw : List Int} {p : Par} (hi : s.img = .proxy raw p) :
-    (step s .asarray).2.res = .arr s.heap.length ⟨p.outDt, p.scaled raw, false⟩ := by
-  have : readObj s none = alloc s ⟨p.outDt, p.scaled raw, false⟩ := by
+    (step s .asarray).2.res = .arr s.heap.length ⟨p.outDt, p.scaled raw, p.readRO none⟩ := by
+  have : readObj s none = alloc s ⟨p.outDt, p.scaled raw, p.readRO none⟩ := by
     unfold readObj; rw [hi]; rfl
   simp only [step, retArr_res, this, alloc_snd, get_alloc_new]
 
@@ -793,8 +793,8 @@ theorem slice_proxy {s : State} {raw : List Int} {p : Par} (hi : s.img = .proxy 
 
 theorem getData_proxy {s : State} {raw : List Int} {p : Par} (hi : s.img = .proxy raw p)
     (c : Caching) (hc : c ≠ .other) (hd : s.dcache = none) :
-    (step s (.getData c)).2.res = .arr s.heap.length ⟨p.outDt, p.scaled raw, false⟩ := by
-  have : readObj s none = alloc s ⟨p.outDt, p.scaled raw, false⟩ := by
+    (step s (.getData c)).2.res = .arr s.heap.length ⟨p.outDt, p.scaled raw, p.readRO none⟩ := by
+  have : readObj s none = alloc s ⟨p.outDt, p.scaled raw, p.readRO none⟩ := by
     unfold readObj; rw [hi]; rfl
   simp only [step, hc, if_false, hd, this]
   split <;> simp only [retArr_res, alloc_snd] <;> exact congrArg _ (get_alloc_new s _)
